@@ -69,7 +69,11 @@ FIXED = ['#program always.\n{ c }.\n&tel { a | &true } :- c.\n', '#program alway
          '#program always.\n{ c }.\n&tel { &true }.\n&tel { a | b | &false } :- not c.\n',
          '#program always.\n#external e. [true]\n{ a }.\nb :- e, a.\nc :- not e.\n', '#program always.\n#external e. [free]\n{ a }.\nb :- e, \'a.\n', '#program dynamic.\n#external e. [true]\nb :- e.\nc :- \'b, not e.\n#program always.\n{ a }.\n',
          '#program initial.\n#external e. [true]\nb :- e.\n#program dynamic.\nb :- \'b.\nc :- not \'b.\n', '#program always.\n#external e(1..2). [true]\n{ a }.\nb(X) :- e(X), a.\n:- b(1), not b(2).\n',
-         '#program always.\n#external e. [true]\n#external f.\n{ a }.\nb :- e, not f.\nc :- not not &tel { < b }.\n']
+         '#program always.\n#external e. [true]\n#external f.\n{ a }.\nb :- e, not f.\nc :- not not &tel { < b }.\n'] + \
+        [# a past formula whose theory atom is grounded for the first time at the third or fourth state (it sits in a rule whose body is derivable late)
+         '#program initial.\nc0.\n#program dynamic.\nc1 :- \'c0.\nlate :- \'c1.\nlate :- \'late.\n#program always.\n{ a }.\n%s\n' % r for r in (
+             ':- late, not &tel { <? a }.', ':- late, &tel { <* a }.', 'b :- late, not not &tel { a <? (< a) }.', ':- late, not &tel { << a | < < a }.', 'b :- late, not &tel { a <* b }.\n{ b }.',
+             ':- late, \'late, not &tel { <? a }.', 'b :- late, not &tel { <? (a & <* a) }.')]
 
 
 def strip_final(text):
